@@ -337,9 +337,13 @@ Proof.
     destruct (locked (mems s m)) eqn:El; [discriminate|]. inj. unfold set_mem.
     assert (Hr : ur (mems s m) = RIdle) by (unfold locked in El; destruct (ur (mems s m)); try discriminate; reflexivity).
     ctl6; std.
-    all: try solve [ intros Hv Hb; apply E2; [exact Hv|]; unfold busy; unfold busy_of in Hb; cbn in Hb; destruct (ctl (mems s m)) eqn:Ec; cbn in *; try reflexivity; exact Hb ].
-    all: try solve [ destruct (ctl (mems s m)) eqn:Ec; cbn; try discriminate; intros _; destruct (FL m) as [Hu _]; [rewrite Ec; reflexivity|]; auto ].
-    all: try solve [ intros Hs; specialize (SYN _ Hs); rewrite SYN; reflexivity ].
+    all: try solve [ intros Hv Hb; apply E2; [exact Hv|]; exact Hb ].
     all: try solve [ rewrite Hr; discriminate ].
-    all: try solve [ intros Hp; specialize (PEND _ Hp); destruct (ctl (mems s m)); try discriminate; reflexivity ].
+  - (* LTermEnd *)
+    destruct (locked (mems s m)) eqn:El; [discriminate|].
+    assert (Hr : ur (mems s m) = RIdle) by (unfold locked in El; destruct (ur (mems s m)); try discriminate; reflexivity).
+    destruct (ctl (mems s m)) eqn:Ec; try discriminate; inj; unfold set_mem; ctl6; std.
+    all: try solve [ intros Hv Hb; apply E2; [exact Hv|]; unfold busy; unfold busy_of in Hb; cbn in Hb; rewrite Ec; cbn; try reflexivity; exact Hb ].
+    all: try solve [ intros Hs; specialize (SYN _ Hs); congruence ].
+    all: try solve [ rewrite Hr; discriminate ].
 Qed.
